@@ -491,7 +491,7 @@ class ExecCall(Contract):
         ev = kw_event(s0, a.kwargs)
         c0 = s0.g("ncb")
         rl = z3.And(rtc(s0), locked(s0))
-        acc = getattr(l, "__acc0").e
+        acc = l.acc.e
         k = z3.Const("k!ei", Int)
         ci = CNT(a.self.e, ev, exec_abs(s0, a.self.e)[1] + l.i)
         f = dict(env_effect(s0, s))
